@@ -242,21 +242,26 @@ def compare_ep(case, ep, rel, res1, res2, box1, box2, pads, atol_free, amp=1.0, 
         if not k.per_row and keep is not None and not keep.all():
             case.note(f'outputs_skipped_row_outside:{ep.name}')
             continue
+        kk = None
         if k.per_row and keep is not None:
             kk = keep_md if k.md else keep
-            if k.kind in ('theta_deg', 'theta_rad') and all(n in out1 for n in ('covar_sigx2', 'covar_sigy2',
-                                                                                 'covar_sigxy')):
-                # the orientation of an isotropic second-moment matrix is undefined (atan2(0, 0)): compared only
-                # where the anisotropy hypot(sxx - syy, 2 sxy) exceeds 1e-6 of the trace
-                sxx, syy, sxy = (np.asarray(epm.split_unit(out1[n])[0], float).ravel()
-                                 for n in ('covar_sigx2', 'covar_sigy2', 'covar_sigxy'))
-                with np.errstate(invalid='ignore'):
-                    defined = np.hypot(sxx - syy, 2.0 * sxy) > 1e-6 * np.abs(sxx + syy)
-                if defined.shape == kk.shape:
-                    case.note(f'rows_isotropic:{ep.name}', int((kk & ~defined).sum()))
-                    kk = kk & defined
+        if k.kind in ('theta_deg', 'theta_rad') and all(n in out1 for n in ('covar_sigx2', 'covar_sigy2',
+                                                                             'covar_sigxy')):
+            # the orientation of an isotropic second-moment matrix is undefined (atan2(0, 0)): compared only
+            # where the anisotropy hypot(sxx - syy, 2 sxy) exceeds 1e-6 of the trace
+            sxx, syy, sxy = (np.asarray(epm.split_unit(out1[n])[0], float).ravel()
+                             for n in ('covar_sigx2', 'covar_sigy2', 'covar_sigxy'))
+            with np.errstate(invalid='ignore'):
+                defined = np.hypot(sxx - syy, 2.0 * sxy) > 1e-6 * np.abs(sxx + syy)
+            if kk is None:
+                kk = np.ones(defined.shape, bool)
+            if defined.shape == kk.shape:
+                case.note(f'rows_isotropic:{ep.name}', int((kk & ~defined).sum()))
+                kk = kk & defined
+        if kk is not None:
             try:
-                cb, co = epm.take_rows(k.kind, cb, kk), epm.take_rows(k.kind, co, kk)
+                cb, co = epm.take_rows(k.kind, np.atleast_1d(cb) if isinstance(cb, np.ndarray) else cb, kk), \
+                    epm.take_rows(k.kind, np.atleast_1d(co) if isinstance(co, np.ndarray) else co, kk)
             except (IndexError, TypeError) as exc:
                 case.check(False, 'covariant', mech, why=f'row selection failed: {exc}')
                 continue
